@@ -157,7 +157,9 @@ func ReadFile(r Reader, out interface{}, cb func(val unsafe.Pointer, rb *Resourc
 		p = unsafe_New(rtyp)
 	}
 
-	var compressed []byte
+	// compressed grows with the data actually read, so a corrupt block length
+	// costs no more memory than the file provides.
+	var compressed bytes.Buffer
 	br := &ReadBuf{}
 	for {
 		count, err := binary.ReadVarint(r)
@@ -174,15 +176,14 @@ func ReadFile(r Reader, out interface{}, cb func(val unsafe.Pointer, rb *Resourc
 		if dataLength < 0 {
 			return fmt.Errorf("negative data block length %d", dataLength)
 		}
-		if cap(compressed) < int(dataLength) {
-			compressed = make([]byte, dataLength)
-		} else {
-			compressed = compressed[:dataLength]
-		}
-		if n, err := io.ReadFull(r, compressed); err != nil {
+		compressed.Reset()
+		if n, err := io.CopyN(&compressed, r, dataLength); err != nil {
+			if errors.Is(err, io.EOF) {
+				err = io.ErrUnexpectedEOF
+			}
 			return fmt.Errorf("reading %d bytes of compressed data: %w after %d bytes", dataLength, err, n)
 		}
-		uncompressed, err := decoder.decompress(compressed)
+		uncompressed, err := decoder.decompress(compressed.Bytes())
 		if err != nil {
 			return fmt.Errorf("decompress failed: %w", err)
 		}
@@ -267,9 +268,16 @@ func readBytes(r Reader) ([]byte, error) {
 	if l < 0 {
 		return nil, fmt.Errorf("negative length %d", l)
 	}
-	v := make([]byte, l)
-	_, err = io.ReadFull(r, v)
-	return v, err
+	// Read through a buffer that grows with the data present rather than
+	// allocating the declared length up front.
+	var v bytes.Buffer
+	if _, err := io.CopyN(&v, r, l); err != nil {
+		if errors.Is(err, io.EOF) {
+			err = io.ErrUnexpectedEOF
+		}
+		return nil, err
+	}
+	return v.Bytes(), nil
 }
 
 func (fh FileHeader) schema() (schema Schema, err error) {
